@@ -11,6 +11,7 @@ import Driver.CliCmd
 import Driver.SemCmd
 import Driver.ScopeCmd
 import Driver.BookCmd
+import Driver.DeclCmd
 /-!
 # Line-protocol driver over the executable models
 
@@ -40,6 +41,7 @@ def step (s : DState) (line : String) : DState × String :=
   | ["sem", p, e, a] => (s, semLine p e a)
   | "scope" :: toks => (s, scopeLine toks)
   | ["book", o] => (s, bookLine o)
+  | ["decl", o] => (s, declLine o)
   | _ => (s, "bad-op")
 
 partial def loop (h : IO.FS.Stream) (out : IO.FS.Stream) (s : DState) : IO Unit := do
